@@ -454,11 +454,20 @@ func random(c *mon.Ctx, r *gen.Rand) {
 			}
 			subs++
 			typ := types[r.Intn(len(types))]
+			if r.Chance(12) {
+				typ = r.Byte() // "any segmentation types": all 256 values of the field, with or without rules
+				t.pat["type-from-the-whole-code-space"] = true
+			}
 			num, exp := byte(1), byte(1)
 			if r.Chance(4) {
 				exp = 2
 			}
 			d := mk(typ, uint32(1+r.Intn(2)), pts, !r.Chance(12), num, exp)
+			if r.Chance(10) {
+				// segmentation_event_cancel_indicator: a field the bookkeeping is not stated to depend on
+				d.SetIsEventCanceled(true)
+				t.pat["cancelled-event"] = true
+			}
 			t.register(d, typ, d.EventID(), pts, d.SCTE35().HasPTS())
 			t.process(d)
 			if pts != cur && r.Bool() {
@@ -599,6 +608,9 @@ func pooled(c *mon.Ctx, r *gen.Rand) {
 				continue
 			}
 			typ := pool[r.Intn(len(pool))]
+			if r.Chance(10) {
+				typ = r.PickByte([]byte{0x00, 0x02, 0x12, 0x18, 0x1f, 0x33, 0x3d, 0x46, 0x4f, 0x52, 0x53, 0x7f, 0x80, 0xfe, 0xff, r.Byte()})
+			}
 			d := mk(typ, uint32(1+r.Intn(events)), pts, true, 1, 1)
 			t.register(d, typ, d.EventID(), pts, true)
 			t.process(d)
@@ -825,6 +837,8 @@ func run(c *mon.Ctx) {
 	})
 	c.Stream("random", c.N(40000, 30000000), func(i int, r *gen.Rand) { random(c, r) })
 	c.Floor("pattern.signal-times-out-of-order", 1000)
+	c.Floor("pattern.cancelled-event", 1000)
+	c.Floor("pattern.type-from-the-whole-code-space", 1000)
 	c.Floor("pooled.histories", 10000)
 	c.Stream("pooled", c.N(40000, 20000000), func(i int, r *gen.Rand) { pooled(c, r) })
 	c.Stream("interleaved", c.N(10000, 5000000), func(i int, r *gen.Rand) { interleaved(c, r) })
